@@ -483,6 +483,13 @@ func (w *kqueue) readEvents() {
 				continue
 			}
 
+			// The watch was removed after the kernel gave us this event (e.g.
+			// Remove() was called in the meanwhile): there is no path we can
+			// report this for.
+			if !ok {
+				continue
+			}
+
 			event := w.newEvent(path.name, path.linkName, mask)
 
 			if event.Has(Rename) || event.Has(Remove) {
